@@ -296,6 +296,24 @@ class H4Small(H4LocationService):
         return [b for b in H4LocationService.check(self, s) if b.get("request") != "two"]
 
 
+class H4Timeout(H4LocationService):
+    """one unicast request, the destination never answers: the request must be dropped after the final retry
+    (timer expiry may race with the registration of the timer)"""
+
+    def actors(self):
+        return H4LocationService.actors(self)[:1]
+
+    def check(self, s):
+        bad = [b for b in H4LocationService.check(self, s) if b.get("request") != "two"]
+        fr = self.frames()
+        if any(p["kind"] == "guc" for p in fr):
+            bad.append(dict(kind="unicast_sent_without_reply"))
+        entry = self.r.location_table.get_entry(self.d)
+        if entry is not None and entry.ls_pending and not any(t.is_timer and not t.finished for t in s.threads):
+            bad.append(dict(kind="lookup_pending_for_ever"))
+        return bad
+
+
 class H5Small(H5Dpd):
     def actors(self):
         return H5Dpd.actors(self)[:2]
@@ -309,7 +327,7 @@ class H5Small(H5Dpd):
         return bad
 
 
-HARNESSES = {"H1s": H1Small, "H3s": H3Small, "H4s": H4Small, "H5s": H5Small, "H1": H1Sequence, "H2": H2Cbf, "H2b": H2bSeam, "H3": H3EgoPv, "H4": H4LocationService, "H5": H5Dpd}
+HARNESSES = {"H4t": H4Timeout, "H1s": H1Small, "H3s": H3Small, "H4s": H4Small, "H5s": H5Small, "H1": H1Sequence, "H2": H2Cbf, "H2b": H2bSeam, "H3": H3EgoPv, "H4": H4LocationService, "H5": H5Dpd}
 
 
 def make(name):
@@ -318,8 +336,8 @@ def make(name):
 
 def run(ctx):
     thorough = ctx.tier == "thorough"
-    plan = {"H1s": 1, "H2": 1, "H2b": 2, "H3s": 1, "H4s": 1, "H5s": 1} if not thorough else \
-           {"H1s": 2, "H1": 1, "H2": 2, "H2b": 3, "H3s": 2, "H3": 1, "H4s": 2, "H4": 1, "H5s": 2, "H5": 1}
+    plan = {"H1s": 1, "H2": 1, "H2b": 2, "H3s": 1, "H4s": 1, "H4t": 1, "H5s": 1} if not thorough else \
+           {"H1s": 2, "H1": 1, "H2": 2, "H2b": 3, "H3s": 2, "H3": 1, "H4s": 2, "H4t": 2, "H4": 1, "H5s": 2, "H5": 1}
     tot_s = tot_steps = 0
     outcomes = 0
     samples = []
